@@ -226,6 +226,19 @@ class SmallCompiler(FuncCompiler):
         return FuncCompiler.stmt(self, s)
 
     def tail(self, stmts):
+        if (len(stmts) >= 2 and isinstance(stmts[-1], ast.Return) and isinstance(stmts[-2], ast.For)
+                and any(isinstance(n, ast.Return) for n in ast.walk(stmts[-2]))):
+            head, hr = self.block(stmts[:-2]) if stmts[:-2] else ('v', False)
+            r = self.search_loop(stmts[-2], stmts[-1])
+            if r is None:
+                self.bad(stmts[-2], '`return` inside a loop that is not of the search form '
+                                    '`for ..: [for ..:] if c: return e` + `return d`')
+            text, rr = r
+            if head == 'v' and not hr:
+                return text, rr
+            if hr:
+                return '(do\n  let v : Locals ← %s\n  pure %s)' % (indent_rest(head, 4), indent_rest(text, 2)), True
+            return '(let v : Locals := %s\n %s)' % (indent_rest(head, 4), indent_rest(text, 1)), False
         if not getattr(self, 'slots', {}):
             return FuncCompiler.tail(self, stmts)
         last = stmts[-1] if stmts else None
@@ -387,6 +400,20 @@ class SmallCompiler(FuncCompiler):
         if len(e.ops) == 1:
             op = type(e.ops[0]).__name__
             right = e.comparators[0]
+            if op in ('Eq', 'NotEq') and not (isinstance(right, ast.Constant) and right.value is None):
+                a, b = self.expr(e.left), self.expr(right)
+                ta, tb = prune(a.ty), prune(b.ty)
+                oa = not isinstance(ta, TV) and ta[0] == 'opt'
+                ob = not isinstance(tb, TV) and tb[0] == 'opt'
+                if oa != ob:
+                    # `x == y` where one side may be None: equal iff the other is that very value
+                    if not oa:
+                        a = self.some(a)
+                    else:
+                        b = self.some(b)
+                    self.unify(a.ty, b.ty, e)
+                    fmt = '(decide (%s = %s))' if op == 'Eq' else '(!decide (%s = %s))'
+                    return self.lift([a, b], lambda c: fmt % (c[0], c[1]), BOOL)
             if op in ('In', 'NotIn'):
                 ch = self.one_char_literal(e.left)
                 if ch is not None:
@@ -404,6 +431,25 @@ class SmallCompiler(FuncCompiler):
 
     def e_Call(self, e):
         f = e.func
+        dc = self.declared_call(e)
+        if dc is not None:
+            ptypes = [parse_type(t) for t in dc['params']]
+            if len(e.args) != len(ptypes):
+                self.bad(e, 'declared call with %d arguments' % len(e.args))
+            args = [self.coerce(self.to_int(self.expr(a)), t, e) for a, t in zip(e.args, ptypes)]
+            return self.lift(args, lambda c: '(%s %s)' % (dc['lean'], ' '.join(c)), parse_type(dc['returns']),
+                             result_raises=bool(dc.get('raises')))
+        if isinstance(f, ast.Attribute) and not (isinstance(f.value, ast.Name) and f.value.id == 'self'):
+            try:
+                tail_text = ast.unparse(e)[len(ast.unparse(f.value)) + 1:]
+            except Exception:
+                tail_text = None
+            if tail_text is not None and isinstance(f.value, ast.Name) and f.value.id in self.names:
+                base = self.expr(f.value)
+                info = self.record_info(base.ty)
+                if info is not None and tail_text in (info.get('calls') or {}):
+                    fld = info['calls'][tail_text]
+                    return self.lift([base], lambda c: '%s.%s' % (c[0], lean_ident(fld)), info['fields'][fld])
         if self.is_isinstance_slice(e):
             a = self.expr(e.args[0])
             t = prune(a.ty)
@@ -480,7 +526,82 @@ class SmallCompiler(FuncCompiler):
             nts = getattr(self.gen, 'namedtuples', {})
             if t[1] in nts:
                 return nts[t[1]]
+            recs = getattr(self.gen, 'small_records', {})
+            if t[1] in recs:
+                return recs[t[1]]['fields']
         return None
+
+    def record_info(self, ty):
+        t = prune(ty)
+        if not isinstance(t, TV) and t[0] == 'named':
+            return getattr(self.gen, 'small_records', {}).get(t[1])
+        return None
+
+    def iter_expr(self, node):
+        """the list a `for` / comprehension iterates: a list, or a record declared iterable ('iter': field)"""
+        a = self.expr(node)
+        info = self.record_info(a.ty)
+        if info is not None and info.get('iter'):
+            fld = info['iter']
+            return self.lift([a], lambda c: '%s.%s' % (c[0], lean_ident(fld)), info['fields'][fld])
+        return a
+
+    def declared_call(self, e):
+        """a call declared in SPEC 'calls' by its source text (receiver included): a translated method of another
+        object held in an attribute"""
+        calls = (self.spec or {}).get('calls') or {}
+        try:
+            key = ast.unparse(e.func)
+        except Exception:
+            return None
+        if key in calls and not e.keywords and not any(isinstance(a, ast.Starred) for a in e.args):
+            return calls[key]
+        return None
+
+    def search_loop(self, loop, ret):
+        """`for x in xs: [for y in ys(x):] if c: return e` followed by `return d`: the first hit in iteration order"""
+        binds, node = [], loop
+        depth = 0
+        while isinstance(node, ast.For):
+            if node.orelse or not isinstance(node.target, ast.Name) or len(node.body) != 1:
+                return None
+            binds.append(node)
+            node = node.body[0]
+            depth += 1
+        if not (isinstance(node, ast.If) and not node.orelse and len(node.body) == 1 and isinstance(node.body[0], ast.Return)
+                and node.body[0].value is not None and ret.value is not None and 1 <= depth <= 2):
+            return None
+        saved = dict(self.names)
+        try:
+            codes = []
+            for k, f in enumerate(binds):
+                it = self.iter_expr(f.iter)
+                if it.raises or self.kind(it, f.iter) != 'list':
+                    self.bad(f, 'search loop over something that is not a plain list')
+                el = prune(it.ty)[1]
+                if f.target.id in self.local_types:
+                    self.unify(self.local_types[f.target.id], el, f)
+                var = 'y%d' % (k + 1)
+                codes.append((var, el, it.code))
+                self.names[f.target.id] = (var, el)
+            c = self.as_bool(self.expr(node.test), node.test)
+            d = self.expr(ret.value)
+            e = self.expr(node.body[0].value)
+            if c.raises or d.raises or e.raises:
+                self.bad(node, 'search loop whose test or results may raise')
+            dt, et = prune(d.ty), prune(e.ty)
+            if not isinstance(dt, TV) and dt[0] == 'opt' and (isinstance(et, TV) or et[0] != 'opt'):
+                e = self.some(e)
+            self.unify(d.ty, e.ty, node)
+            self.unify(self.ret_type, d.ty, node)
+        finally:
+            self.names = saved
+        from harness.py2lean import lean_type
+        inner = '(if %s then some %s else none)' % (c.code, e.code)
+        for var, el, itc in reversed(codes):
+            inner = '(List.findSome? (fun (%s : %s) => %s) %s)' % (var, lean_type(el), inner, itc)
+        return '(Option.getD %s %s)' % (inner, d.code), False
+
 
     def e_Attribute(self, e):
         # `local.field` of a namedtuple; `x.start / .stop / .step` of an int-or-slice value
@@ -612,7 +733,7 @@ class SmallCompiler(FuncCompiler):
         else:
             if not isinstance(g.target, ast.Name):
                 self.bad(e, 'comprehension with a non-name target')
-            src = self.expr(it)
+            src = self.iter_expr(it)
             if self.kind(src, it) != 'list':
                 self.bad(e, 'comprehension over a %s' % self.kind(src, it))
             el = prune(src.ty)[1]
@@ -674,12 +795,19 @@ def render_fragment(gen, fname, fs):
     import copy
     from harness import py2lean
     mod = gen.mod
-    cnodes = mod.classes.get(fs['class'], [])
-    if len(cnodes) != 1:
-        raise py2lean.Py2LeanUnsupported(mod.relpath, 0, 'class %s not found exactly once' % fs['class'])
-    ms = [n for n in cnodes[0].body if isinstance(n, ast.FunctionDef) and n.name == fs['method']]
-    if len(ms) != 1:
-        raise py2lean.Py2LeanUnsupported(mod.relpath, cnodes[0], 'method %s.%s not found exactly once' % (fs['class'], fs['method']))
+    if 'func' in fs:
+        # a module-level function instead of a method
+        ms = mod.funcs.get(fs['func'], [])
+        if len(ms) != 1:
+            raise py2lean.Py2LeanUnsupported(mod.relpath, 0, 'function %s not found exactly once' % fs['func'])
+        fs = dict(fs, **{'class': '<module>', 'method': fs['func']})
+    else:
+        cnodes = mod.classes.get(fs['class'], [])
+        if len(cnodes) != 1:
+            raise py2lean.Py2LeanUnsupported(mod.relpath, 0, 'class %s not found exactly once' % fs['class'])
+        ms = [n for n in cnodes[0].body if isinstance(n, ast.FunctionDef) and n.name == fs['method']]
+        if len(ms) != 1:
+            raise py2lean.Py2LeanUnsupported(mod.relpath, cnodes[0], 'method %s.%s not found exactly once' % (fs['class'], fs['method']))
     meth = ms[0]
     body = list(meth.body)
     if body and isinstance(body[0], ast.Expr) and isinstance(body[0].value, ast.Constant) and isinstance(body[0].value.value, str):
@@ -695,11 +823,14 @@ def render_fragment(gen, fname, fs):
         first, last = part[0].lineno, part[-1].end_lineno
         new_body = part + [ret]
     else:
-        found = [n for n in ast.walk(meth) if type(n).__name__ == fs['expr']]
-        if len(found) != 1:
-            raise py2lean.Py2LeanUnsupported(mod.relpath, meth, 'method %s: %d expressions of type %s (expected one)'
-                                             % (fs['method'], len(found), fs['expr']))
-        node = copy.deepcopy(found[0])
+        found = sorted((n for n in ast.walk(meth) if type(n).__name__ == fs['expr']), key=lambda n: (n.lineno, n.col_offset))
+        want = fs.get('of')     # 'of': (k, total): the k-th (from 0, in source order) of exactly `total` such expressions
+        if want is None:
+            want = (0, 1)
+        if len(found) != want[1]:
+            raise py2lean.Py2LeanUnsupported(mod.relpath, meth, 'method %s: %d expressions of type %s (expected %d)'
+                                             % (fs['method'], len(found), fs['expr'], want[1]))
+        node = copy.deepcopy(found[want[0]])
         ret = ast.Return(value=node)
         ast.copy_location(ret, node)
         first, last = node.lineno, node.end_lineno
@@ -774,3 +905,21 @@ def render_small_methods(gen, spec, func_texts):
             pure[mname] = (lname, params, prune(fc.ret_type), raises)
             func_texts.append(text)
             gen.items.append({'kind': 'method', 'name': '%s.%s' % (cname, mname), 'lines': [a, b], 'may_raise': raises})
+
+
+def render_small_records(gen, spec, func_texts):
+    """SPEC key 'small_records': abstract views of objects the translated code only reads: a record of the declared
+    fields; `'iter': field` — iterating the object yields that list field; `'calls': {source text: field}` — a
+    method call on the object that stands for reading that field (`get_metadata('index')`)."""
+    from harness import py2lean
+    gen.small_records = {}
+    for name, rs in spec.get('small_records', {}).items():
+        fields = {k: parse_type(t) for k, t in rs['fields'].items()}
+        gen.small_records[name] = {'fields': fields, 'iter': rs.get('iter'), 'calls': rs.get('calls') or {}}
+        py2lean.NAMED_KIND[name] = 'namedtuple'
+        lines = ['/-- abstract view of a `%s` object (translator specification): %s -/' % (name, rs.get('doc', '')),
+                 'structure %s where' % name]
+        for k in rs['fields']:
+            lines.append('  %s : %s' % (lean_ident(k), py2lean.lean_type(fields[k])))
+        lines.append('  deriving Inhabited')
+        func_texts.append('\n'.join(lines))
